@@ -1,7 +1,241 @@
-//! C06 — not implemented yet.
-use vmon::report::Args;
+//! C06 — time travel is immutable.
+//!
+//! Snapshot of every version right after its commit; after every later step every retained
+//! version is checked out again (fresh Session / the history's long-lived Session, alternating;
+//! both at the end) and compared with its snapshot.
+use crate::hist::{Hist, HistCfg, OpKind, Weights};
+use serde_json::json;
+use vmon::prng::Rng;
+use vmon::report::{Args, Report};
 
-pub fn run(_args: &Args) -> i32 {
-    eprintln!("HARNESS-ERROR C06 not implemented");
-    2
+fn weights() -> Weights {
+    use OpKind::*;
+    vec![
+        (8, Append),
+        (7, Overwrite),
+        (6, DeleteIds),
+        (2, DeleteVal),
+        (5, Update),
+        (4, Upsert),
+        (10, Compact),
+        (4, CreateIndex),
+        (2, OptimizeIndices),
+        (2, AddColumn),
+        (2, DropColumn),
+        (2, AlterColumn),
+        (2, UpdateConfig),
+        (10, Restore),
+        (3, TagCreate),
+        (2, TagUpdate),
+        (2, TagDelete),
+        (3, BranchCreate),
+        (2, BranchDelete),
+        (1, ShallowClone),
+        (3, StaleWrite),
+        (8, ConcurrentDeletes),
+        (5, Cleanup),
+    ]
+}
+
+pub fn run(args: &Args) -> i32 {
+    if args.extra.contains_key("selftest") {
+        return selftest(args);
+    }
+    let report = Report::new(
+        args,
+        "exploration",
+        "case = one seeded history (<=12 quick / <=40 thorough ops) weighted towards restore, overwrite, compaction, rebased concurrent deletes, tag/branch changes and cleanup of other versions; every version is snapshotted (schema, ordered rows incl. _rowid, deletion vectors, config, index list) when committed and re-read after every later step. Non-trivial = >=3 versions re-compared after a later restore/overwrite/compaction/rebase/cleanup/ref change; distinct by (config, op kinds, outcomes).",
+        (70, 900),
+    )
+    .with_min_nontrivial(10);
+    let max_ops = args.tier.pick(12usize, 40);
+    let max_cases = args.tier.pick(4000u64, 200_000);
+    if let Some(c) = args.extra.get("case").and_then(|c| c.parse::<u64>().ok()) {
+        std::env::set_var("E_HIST_VERBOSE", "1");
+        let rt = tokio::runtime::Builder::new_current_thread().enable_all().build().unwrap();
+        rt.block_on(one_case(args.seed, c, max_ops, &report));
+        return report.finish();
+    }
+    crate::hist::run_parallel(&report, args, 16, max_cases, 180, |i, report| {
+        Box::pin(one_case(args.seed, i, max_ops, report))
+    });
+    report.finish()
+}
+
+fn disturbing(k: OpKind) -> bool {
+    use OpKind::*;
+    matches!(
+        k,
+        Restore | Overwrite | Compact | ConcurrentDeletes | Cleanup | TagCreate | TagUpdate | TagDelete | BranchCreate | BranchDelete | StaleWrite
+    )
+}
+
+async fn one_case(seed: u64, case: u64, max_ops: usize, report: &Report) {
+    let mut rng = Rng::for_case(seed, case);
+    let cfg = HistCfg::random(&mut rng);
+    let n_ops = rng.urange(5, max_ops);
+    let w = weights();
+    let mut h = Hist::mem(rng.clone(), cfg);
+    h.case = case;
+    let rec = h.create_table("memory://t0").await;
+    if !rec.outcome.is_ok() {
+        report.harness_error(&format!("case {case}: create failed: {}", rec.outcome.text()));
+        return;
+    }
+    let mut recompared_after_disturbance = 0u64;
+    let mut disturbed = false;
+    for step in 0..n_ops {
+        if !report.time_left() {
+            break;
+        }
+        let kind: OpKind = *rng.pick_weighted(&w);
+        let rec = h.step(kind).await;
+        if rec.outcome.is_ok() && disturbing(kind) {
+            disturbed = true;
+        }
+        // a version may only vanish through cleanup
+        if !rec.removed_versions.is_empty() && kind != OpKind::Cleanup {
+            let auto = h.cfg.auto_cleanup_default;
+            report.violation(
+                "version-vanished-without-cleanup",
+                &format!("{:?} vanished after {}", rec.removed_versions, kind.name()),
+                json!({"seed": seed, "case": case, "config": h.cfg.describe(), "auto_cleanup_default": auto, "ops": h.ops_json(48)}),
+            );
+        }
+        for (loc, v, e) in &rec.unreadable {
+            report.count("new_versions_unreadable_when_committed", 1);
+            let _ = (loc, v, e); // C05's subject; not an immutability question
+        }
+        let last = step + 1 == n_ops;
+        let new: std::collections::BTreeSet<(crate::hist::Loc, u64)> = rec.new_versions.iter().cloned().collect();
+        for loc in h.live_locs() {
+            let vs: Vec<u64> = h.lin[&loc].snaps.keys().copied().collect();
+            // bound the quadratic cost: all versions while there are few, else a sample + the oldest
+            let chosen: Vec<u64> = if vs.len() <= 14 || last {
+                vs.clone()
+            } else {
+                let mut c: Vec<u64> = rng.sample_indices(vs.len(), 12).into_iter().map(|i| vs[i]).collect();
+                c.push(vs[0]);
+                c.sort();
+                c.dedup();
+                c
+            };
+            for v in chosen {
+                if new.contains(&(loc.clone(), v)) {
+                    continue; // snapshot just taken
+                }
+                let modes: Vec<bool> = if last { vec![true, false] } else { vec![(step as u64 + v) % 2 == 0] };
+                for fresh in modes {
+                    let r = h.recheck_version(&loc, v, fresh).await;
+                    report.count("snapshots_recompared", 1);
+                    report.count(if fresh { "recompared_fresh_session" } else { "recompared_shared_session" }, 1);
+                    report.count("rows_recompared", h.lin[&loc].snaps[&v].rows.len() as u64);
+                    if disturbed {
+                        recompared_after_disturbance += 1;
+                    }
+                    let session = if fresh { "fresh-session" } else { "shared-session" };
+                    match r {
+                        Ok(None) => {}
+                        Ok(Some((class, detail))) => {
+                            report.violation(
+                                &format!("old-version-{class}"),
+                                &format!("{}:v{} read through a {} differs from its snapshot after step {} ({})", loc.label(), v, session, rec.idx, kind.name()),
+                                json!({"seed": seed, "case": case, "config": h.cfg.describe(), "lineage": loc.label(), "version": v,
+                                       "session": session, "after_step": rec.brief(), "diff": detail, "ops": h.ops_json(48)}),
+                            );
+                        }
+                        Err(e) => {
+                            let class = if e.starts_with("panic") { "panics" } else { "unreadable" };
+                            report.violation(
+                                &format!("old-version-{class}-after-{}", kind.name()),
+                                &format!("{}:v{} ({}) is still listed but cannot be read after step {} ({}): {}", loc.label(), v, session, rec.idx, kind.name(), e),
+                                json!({"seed": seed, "case": case, "config": h.cfg.describe(), "lineage": loc.label(), "version": v,
+                                       "session": session, "after_step": rec.brief(), "error": e, "ops": h.ops_json(48)}),
+                            );
+                        }
+                    }
+                }
+            }
+        }
+    }
+    if std::env::var("E_HIST_VERBOSE").is_ok() {
+        println!("config: {}", h.cfg.describe());
+        for s in &h.steps {
+            println!("{}", s.brief());
+        }
+        for p in &h.problems {
+            println!("PROBLEM {p}");
+        }
+        for p in &h.model_disagreements {
+            println!("MODEL {p}");
+        }
+    }
+    h.count_ops(report);
+    report.count("snapshots_taken", h.snapshots_taken);
+    let nontrivial = recompared_after_disturbance >= 3;
+    report.case(if nontrivial { Some(h.shape_sig()) } else { None });
+    if report.want_sample() && nontrivial {
+        report.sample(json!({"case": case, "config": h.cfg.describe(),
+                             "versions": h.live_locs().iter().map(|l| format!("{}: {:?}", l.label(), h.lin[l].snaps.keys().collect::<Vec<_>>())).collect::<Vec<_>>(),
+                             "recompared_after_disturbance": recompared_after_disturbance, "ops": h.ops_json(14)}));
+    }
+}
+
+fn selftest(args: &Args) -> i32 {
+    use crate::snap::diff;
+    let rt = tokio::runtime::Builder::new_current_thread().enable_all().build().unwrap();
+    let snap = rt.block_on(async {
+        let mut rng = Rng::for_case(args.seed, 0);
+        let mut cfg = HistCfg::random(&mut rng);
+        cfg.storage = lance_encoding::version::LanceFileVersion::V2_0;
+        let mut h = Hist::mem(rng, cfg);
+        h.create_table("memory://t0").await;
+        for k in [OpKind::Append, OpKind::DeleteIds, OpKind::CreateIndex, OpKind::UpdateConfig] {
+            h.step(k).await;
+        }
+        let loc = h.live_locs()[0].clone();
+        let latest = h.lin[&loc].latest();
+        assert!(h.recheck_version(&loc, latest, true).await.unwrap().is_none());
+        h.lin[&loc].snaps[&latest].clone()
+    });
+    let mut fails = vec![];
+    let mut expect = |name: &str, mutated: crate::snap::Snapshot, class: &str| {
+        let mut m = mutated;
+        m.digest ^= 1; // the digest is recomputed by a real re-read; here force the slow path
+        match diff(&snap, &m) {
+            Some((c, _)) if c == class => {}
+            other => fails.push(format!("{name}: expected {class}, got {:?}", other.map(|x| x.0))),
+        }
+    };
+    let mut m = snap.clone();
+    m.rows.pop();
+    expect("drop row", m, "rows-lost");
+    let mut m = snap.clone();
+    m.rows.swap(0, 1);
+    expect("reorder", m, "row-order-changed");
+    let mut m = snap.clone();
+    m.rows[0][1] = vmon::table::Cell::Int(123456);
+    expect("value", m, "row-values-changed");
+    let mut m = snap.clone();
+    let f = m.frags.iter_mut().find(|f| !f.deleted.is_empty()).expect("deleted rows");
+    f.deleted.pop();
+    expect("deletion vector", m, "deletions-or-fragments-changed");
+    let mut m = snap.clone();
+    m.indices.clear();
+    expect("index list", m, "index-list-changed");
+    let mut m = snap.clone();
+    m.config.insert("vk.zz".into(), "1".into());
+    expect("config", m, "config-changed");
+    let mut m = snap.clone();
+    m.schema.push_str("x#99:Int32;");
+    expect("schema", m, "schema-changed");
+    if fails.is_empty() {
+        println!("SELFTEST C06 ok: 7 corruptions of the re-read observation all flagged");
+        0
+    } else {
+        for f in fails {
+            println!("SELFTEST C06 FAILED: {f}");
+        }
+        2
+    }
 }
